@@ -1083,7 +1083,7 @@ func genProbes14(g *Rng, full []string) [][]string {
 func runC14(r *Run, rng *Rng, tier string) error {
 	nModel, nLaw, nFS, nFSLaw := 900, 4000, 500, 2500
 	if tier == "thorough" {
-		nModel, nLaw, nFS, nFSLaw = 9000, 100000, 4000, 40000
+		nModel, nLaw, nFS, nFSLaw = 6000, 100000, 3000, 40000
 	}
 	r.Meta.Rule = "path ops: random block-YAML mappings (depth<=3, keys a/b/name/c, scalars x/y/1/\"1\"/null/true/\"\"/yes, " +
 		"keyed and primitive lists, rare duplicate keys); paths of length<=4 over keys, [name=v], [=v], indices, '-', rare malformed parts; " +
@@ -1137,7 +1137,7 @@ func runC14(r *Run, rng *Rng, tier string) error {
 	}
 	nAPI := 700
 	if tier == "thorough" {
-		nAPI = 8000
+		nAPI = 5000
 	}
 	for i := 0; i < nAPI; i++ {
 		runOne14(r, genAPICase14(rng.Fork()), true)
